@@ -244,6 +244,11 @@ def royalty_cap(s):
     for c in colls[1:17]:
         nft_send(s, "usr2", c, "3", {"k": "add_to_bucket_cw721", "id": 3})
     buy(s, "usr2", 3, 3)                                               # 5100 on the buyer side: refused
+    for bps in (299, 201):                                             # 5099 and 5001: still over half, on either side
+        adv(s, 10, dh=100)
+        s.do({"t": "reg", "sender": "usr5", "msg": {"k": "update", "coll": colls[16], "payout": None, "bps": bps}}, "valid")
+        buy(s, "usr2", 3, 3)
+        buy(s, "usr2", 2, 2)
     adv(s, 10, dh=100)
     s.do({"t": "reg", "sender": "usr5", "msg": {"k": "update", "coll": colls[16], "payout": None, "bps": 200}}, "valid")
     buy(s, "usr2", 3, 3)                                               # 5000: allowed
